@@ -1033,6 +1033,9 @@ fn lower_choices(probe: &Config) -> Vec<(&'static str, Tree)> {
         ("d/UPPER.BIN".to_string(), file(b"U")), ("d/Y.TXT".to_string(), file(b"Y")), ("d/E".to_string(), Node::Dir), ("d/E/in.bin".to_string(), file(b"e")),
         // siblings whose names extend a directory name with characters that sort below '/':
         // string order and path-component order differ on them
+        // a DIRECTORY whose own name matches the extension patterns (an unpacked d/pack.bin/), with a
+        // file and a nested directory of the same kind inside
+        ("d/pack.bin".to_string(), Node::Dir), ("d/pack.bin/in.txt".to_string(), file(b"p")), ("d/pack.bin/inner.bin".to_string(), Node::Dir), ("d/notes.txt".to_string(), Node::Dir),
         ("d-old".to_string(), file(b"o")), ("d.bin".to_string(), file(b"b")), ("d e".to_string(), Node::Dir), ("d e/f".to_string(), file(b"f"))].into_iter().collect()));
     v.push(("d/", [("d".to_string(), Node::Dir)].into_iter().collect()));
     v.push((
@@ -1080,6 +1083,29 @@ fn lower_choices(probe: &Config) -> Vec<(&'static str, Tree)> {
                     locd.entry(cs[..i].join("/")).or_insert(Node::Dir);
                 }
                 locd.insert(full, file(format!("other language {:?}", lang).as_bytes()));
+            }
+        }
+    }
+    // ... and the own localized location spelled in the OTHER LETTER CASE (m/s/x for the marker
+    // S, e_name for E_name): on a case-sensitive file system that is a different entry, and no
+    // look-up may fall back to it
+    if let Some(p) = probe.localize("d/a") {
+        let flipped: String = p.chars().map(|c| if c.is_ascii_uppercase() { c.to_ascii_lowercase() } else if c.is_ascii_lowercase() && c != 'd' && c != 'a' { c.to_ascii_uppercase() } else { c }).collect();
+        let cs = comps(&flipped);
+        let full = cs.join("/");
+        if full != comps(&p).join("/") && !locd.contains_key(&full) {
+            let mut ok = true;
+            for i in 1..cs.len() {
+                let d = cs[..i].join("/");
+                if matches!(locd.get(&d), Some(Node::File(_))) {
+                    ok = false;
+                }
+            }
+            if ok {
+                for i in 1..cs.len() {
+                    locd.entry(cs[..i].join("/")).or_insert(Node::Dir);
+                }
+                locd.insert(full, file(b"own marker in the other letter case"));
             }
         }
     }
@@ -1243,6 +1269,64 @@ fn scale_script(sys: &Sys, o: &mut Outcome) -> u64 {
                         }
                     }
                 }
+            }
+        }
+        // names that LOOK like the compressed suffix but are not (other letter case, the suffix in
+        // the middle, a longer extension) and the bare suffix as a whole file name: compressed on
+        // write and decompressed on read exactly when the path ends in the game's suffix
+        {
+            let up = sfx.to_uppercase();
+            let cap = format!(".{}{}", sfx[1..2].to_uppercase(), &sfx[2..]);
+            let names = vec![format!("look/Data.bin{}", up), format!("look/Pack{}", cap), format!("look/x{}.bak", sfx), format!("look/{}", &sfx[1..]), format!("look/x{}x", sfx), format!("look/a{}.txt", sfx), format!("look/{}", sfx), format!("look/UP{}", sfx), "look/plain.LZ".to_string(), "look/plain.CMP".to_string(), "look/plain.Cms".to_string()];
+            let stream_like = sys.cfg.encode_stored(&[0x41; 40]);
+            for (k, p) in names.iter().enumerate() {
+                for (pk, payload) in [vec![7u8, 7, 7], stream_like.clone(), (0..300u32).map(|i| (i % 5) as u8).collect::<Vec<u8>>()].iter().enumerate() {
+                    let loc = (k + pk) % 2 == 1;
+                    let compressed = sys.cfg.is_compressed(p);
+                    match w.fs.write(p, payload, loc) {
+                        Err(e) => out.push(("scale:look-alike:write-failed".to_string(), format!("write({:?}, {} bytes, localized={}) failed: {}", p, payload.len(), loc, e))),
+                        Ok(()) => {
+                            match w.fs.read(p, loc) {
+                                Ok(b) if b == *payload => {}
+                                other => out.push(("scale:look-alike:read-after-write".to_string(), format!("read({:?}, localized={}) after writing {} bytes returned {:?} (the path {} the compressed suffix {:?})", p, loc, payload.len(), other.map(|b| b.len()).map_err(|e| e.to_string()), if compressed { "ends in" } else { "does not end in" }, sfx))),
+                            }
+                            if let Some(actual) = sys.actual(p, loc) {
+                                if let Ok(stored) = std::fs::read(w.roots[w.roots.len() - 1].join(norm(&actual))) {
+                                    let ok = if compressed { sys.cfg.decode_stored(&stored).ok().as_ref() == Some(payload) } else { stored == *payload };
+                                    if !ok {
+                                        out.push(("scale:look-alike:stored".to_string(), format!("the file stored for {:?} is {} although the path {} the compressed suffix {:?}", p, if compressed { "not a valid stream of the payload" } else { "not the payload byte for byte" }, if compressed { "ends in" } else { "does not end in" }, sfx)));
+                                    }
+                                }
+                            }
+                        }
+                    }
+                }
+            }
+        }
+        // a top layer whose directory carries NO write permission bits (a mounted read-only dump
+        // used as the top layer by mistake): whatever a write answers, it must never land in a lower
+        // layer; if it answers Ok the file is in the top layer
+        #[cfg(unix)]
+        if w.roots.len() >= 2 {
+            use std::os::unix::fs::PermissionsExt;
+            let top_root = w.roots[w.roots.len() - 1].clone();
+            let before: Vec<Tree> = w.roots[..w.roots.len() - 1].iter().map(|r| snapshot(r)).collect();
+            let _ = std::fs::set_permissions(&top_root, std::fs::Permissions::from_mode(0o555));
+            for (p, loc) in [("ro/new.bin", false), ("a", false), ("d/a", true), ("ro2.bin", false)] {
+                let r = w.fs.write(p, b"read-only top", loc);
+                if r.is_ok() {
+                    if let Some(actual) = sys.actual(p, loc) {
+                        if std::fs::read(top_root.join(norm(&actual))).ok().as_deref() != Some(&b"read-only top"[..]) {
+                            out.push(("scale:read-only-top:not-in-top".to_string(), format!("write({:?}) answered Ok although the top layer's directory has no write permission bits, but the file is not in the top layer", p)));
+                        }
+                    }
+                }
+            }
+            let _ = w.fs.create_dir("ro_dir", false);
+            let _ = std::fs::set_permissions(&top_root, std::fs::Permissions::from_mode(0o755));
+            let after: Vec<Tree> = w.roots[..w.roots.len() - 1].iter().map(|r| snapshot(r)).collect();
+            if before != after {
+                out.push(("scale:read-only-top:lower-layer-modified".to_string(), "with a top layer directory without write permission bits, write / create_dir changed a LOWER layer".to_string()));
             }
         }
         // many distinct paths through ONE filesystem instance (a per-instance memo of paths
